@@ -389,7 +389,21 @@ class Tracker:
 
         matching_method = self._track_matching_methods[self.track_matching_method]
 
-        row_inds, col_inds = matching_method(cost_matrix)
+        # Entries without a finite cost (e.g., a track with no instance left in the
+        # window) get a large finite cost so that the assignment problem stays
+        # feasible; matches on such entries are discarded so that the instance is
+        # given a new track instead.
+        is_finite = np.isfinite(cost_matrix)
+        assignment_costs = cost_matrix
+        if not is_finite.all():
+            sentinel_cost = 1.0 + 2.0 * np.abs(cost_matrix[is_finite]).sum()
+            assignment_costs = np.where(is_finite, cost_matrix, sentinel_cost)
+        row_inds, col_inds = matching_method(assignment_costs)
+        valid_matches = [
+            (row, col) for row, col in zip(row_inds, col_inds) if is_finite[row, col]
+        ]
+        row_inds = [row for row, _ in valid_matches]
+        col_inds = [col for _, col in valid_matches]
         tracking_scores = [
             -cost_matrix[row, col] for row, col in zip(row_inds, col_inds)
         ]
